@@ -106,6 +106,12 @@ CLAIMED["C03"] = ("Proof: every vtable entry generated for a well-formed trait h
     "against rustc's own improper_ctypes lints on every run by re-compiling REAL expansions (accept side: every argument/return shape x receiver x int mode; reject side: "
     "CResult with an error type without C repr); extern \"C\" and #[repr(C)] are read off the real expansions.", "5.C03", _GEN_NOTE,
     "Coq proof over a generator model + rustc lint as differential oracle on re-compiled real expansions")
+CLAIMED["C20"] = ("Proof: VerifyLayout::and (translated from the source on every run) equals the specification on all 9 ordered pairs; a missing description yields Unknown; "
+    "is_valid_strict/relaxed; the predicted verdict is Valid only if every slot agrees in name, position, receiver form and C parameter/return types, and identical "
+    "definitions are Valid; every kind of single edit is evaluated by the kernel. Tie/monitor: (definition, single-edit variant) pairs are compiled with the layout_checks "
+    "feature and the REAL compare_layouts (abi_stable) must give the predicted verdict; group pairs against the property's own expectation.", "5.C20",
+    "Trusted: Coq kernel; translator verifyand.py; abi_stable's checker (third party, tied only through compiled pairs); generator model.",
+    "Coq proof over a translated function + differential runs against abi_stable on compiled definition pairs")
 PENDING = "not yet built in this round (planned, see DESIGN.md section 5); not claimed until its theorem, tie and monitor exist"
 NA = {}
 
